@@ -55,6 +55,11 @@ type vNode struct {
 // vStartNode starts (bootstrap=true: creates) a single-node network on dir and waits for leadership.
 func vStartNode(dir string, bootstrap bool) (*vNode, error) {
 	log.SetOutput(io.Discard)
+	// message ids = offset + raft index; main() sets the offset from a flag whose default is this value
+	robust.MessageOffset = 4648398125000000000
+	if o := os.Getenv("VERIF_MSGOFFSET"); o != "" {
+		robust.MessageOffset, _ = strconv.ParseUint(o, 10, 64)
+	}
 	*raftDir = dir
 	*network = vNetName
 	*peerAddr = vPeerAddr
